@@ -1004,3 +1004,16 @@ fire("c13-endtime-zero-time-is-unset", "C13", ["C13.endtime"],
      (MINTYPES, ENDT_OLD, "	if sequenceId == lastPos && minter.EndTime != nil && !minter.EndTime.IsZero() {\n		return fmt.Errorf(\"last minter cannot have EndTime set, but is set to %s\", minter.EndTime)\n	}\n	if sequenceId < lastPos && minter.EndTime == nil {"))
 silent("c13-endtime-conditions-reordered", "C13",
        (MINTYPES, ENDT_OLD, "	hasEnd := minter.EndTime != nil\n	if hasEnd && sequenceId == lastPos {\n		return fmt.Errorf(\"last minter cannot have EndTime set, but is set to %s\", minter.EndTime)\n	}\n	if !hasEnd && lastPos > sequenceId {"))
+# ---------------- round-9 rules ----------------
+fire("c04-threshold-strictly-above-one", "C04", ["C04.threshold"],
+     (DISTGO, "		if coin.Amount.GTE(sdk.NewDec(1)) {", "		if coin.Amount.GT(sdk.NewDec(1)) {"))
+silent("c04-threshold-not-below-one", "C04",
+       (DISTGO, "		if coin.Amount.GTE(sdk.NewDec(1)) {", "		if !coin.Amount.LT(sdk.OneDec()) {"))
+fire("c14-success-return-between-transfer-and-booking", ["C14", "C01", "C04"], ["C14.success", "C01.success", "C04.carry"],
+     (DISTGO, "		k.Logger(ctx).Debug(\"coins sent to base account dst\", \"accountId\", state.Account.Id, \"toSend\", toSend)", "		k.Logger(ctx).Debug(\"coins sent to base account dst\", \"accountId\", state.Account.Id, \"toSend\", toSend)\n		if toSend.IsZero() {\n			return\n		}"))
+fire("c05-loopvar-pointer-to-range-variable-kept", "C05", ["C05.loopvar"],
+     (VESTGO, "	events := make([]types.WithdrawAvailable, 0)\n	denom := k.GetParams(ctx).Denom\n	for _, vestingPool := range accVestingPools.VestingPools {", "	events := make([]types.WithdrawAvailable, 0)\n	denom := k.GetParams(ctx).Denom\n	var lastSeen **types.VestingPool\n	defer func() {\n		if lastSeen != nil {\n			k.Logger(ctx).Debug(\"last pool\", \"pool\", *lastSeen)\n		}\n	}()\n	for _, vestingPool := range accVestingPools.VestingPools {\n		lastSeen = &vestingPool"))
+fire("c12-verbatim-owner-lowercased-on-import", ["C12", "C05"], ["C12.verbatim", "C05.gen"],
+     (GENV, "		k.Logger(ctx).Debug(\"set account vesting pools\", \"accountVestingPool\", av)\n		k.SetAccountVestingPools(ctx, *av)", "		k.Logger(ctx).Debug(\"set account vesting pools\", \"accountVestingPool\", av)\n		av.Owner = sdk.MustAccAddressFromBech32(av.Owner).String()\n		k.SetAccountVestingPools(ctx, *av)"))
+fire("c05-gen-balance-in-default-denom", ["C05", "C12"], ["C05.gen", "C12.importall"],
+     (GENV, "	modBalance := bk.GetBalance(ctx, mAcc.GetAddress(), genState.Params.Denom)", "	modBalance := bk.GetBalance(ctx, mAcc.GetAddress(), types.DefaultDenom)"))
